@@ -35,6 +35,7 @@ type EWCase struct {
 	B        *Opnd   `json:"b,omitempty"`
 	BDT      string  `json:"bdt,omitempty"` // when set: element type of B / the scalar (mismatch cells)
 	Scalar   int64   `json:"scalar,omitempty"`
+	ScT      bool    `json:"scalar_as_tensor,omitempty"` // the scalar operand is given as a scalar-shaped tensor (package functions only)
 	Dst      *Opnd   `json:"dst,omitempty"`
 	Lo       int64   `json:"lo,omitempty"` // Clamp bounds
 	Hi       int64   `json:"hi,omitempty"`
@@ -61,7 +62,7 @@ func (c *EWCase) NTKey() string {
 			return ""
 		}
 	}
-	return fmt.Sprintf("%s|%s|%s|%s|%s|%s|%v|%v|%v|%v|%v", c.Op, c.DT, c.Form, c.Via, c.Mode, c.Engine, c.SameType, c.A.Shape, c.A.L, layoutOf(c.B), layoutOf(c.Dst))
+	return fmt.Sprintf("%s|%s|%s|%s|%s|%s|%v|%v|%v|%v|%v|%v", c.Op, c.DT, c.Form, c.Via, c.Mode, c.Engine, c.SameType, c.ScT, c.A.Shape, c.A.L, layoutOf(c.B), layoutOf(c.Dst))
 }
 
 func layoutOf(o *Opnd) string {
@@ -375,6 +376,12 @@ func (c *EWCase) Run() string {
 			rec.Class("int-div-by-zero-error")
 			return "" // integer division by zero: an error and/or any value is accepted there
 		}
+		if c.ScT && c.Fam == "cmp" {
+			// a scalar-shaped TENSOR next to a tensor is, read strictly, a shape mismatch: a refusal is
+			// in order (ElNe refuses it, the other comparisons dispatch it as a scalar)
+			rec.Class("refused:scalar-shaped-tensor-operand")
+			return A.unchanged("operand a")
+		}
 		if dest != nil && dest != Dst && dest.b.HasGaps() {
 			rec.Class("refused:destination-with-gaps")
 			if m := A.unchanged("operand a"); m != "" {
@@ -522,6 +529,9 @@ func (c *EWCase) call(a *tensor.Dense, B *opndB, sc interface{}, d DT, opts []te
 	}
 	if c.Via == "pkg" {
 		f := pkgBinary[c.Op]
+		if c.ScT && c.Form != "TT" {
+			sc = tensor.New(tensor.FromScalar(sc)) // scalar-shaped tensors are dispatched as scalars
+		}
 		switch c.Form {
 		case "TT":
 			return f(a, B.b.T, opts...)
